@@ -35,7 +35,23 @@ def positional(pat, env):
                 env.roles[p["name"]] = ("pb", i)
 
 
-def free_variable_rule(ctx, rid, core):
+class _Only:
+    """a view of ctx that records only the instances whose key matches"""
+
+    def __init__(self, ctx, pred):
+        self._ctx, self._pred = ctx, pred
+
+    def inst(self, rule, key, ok, detail, loc, *a, **k):
+        if self._pred(key):
+            return self._ctx.inst(rule, key, ok, detail, loc, *a, **k)
+
+    def __getattr__(self, n):
+        return getattr(self._ctx, n)
+
+
+def free_variable_rule(ctx, rid, core, only=None):
+    if only is not None:
+        ctx = _Only(ctx, only)
     """the capture analysis against the evaluator's reads, recursion coverage, binder discipline (shared with C05: what is not captured cannot be inlined into the emitted source)"""
     hev = core.hir_fn(EVAL)
     env0 = S.Env()
